@@ -634,7 +634,17 @@ def extract_kernels():
                     a, _ = args_of(blk, fm.end() - 1)
                     if len(a) == 2: r.append((a[0].strip(), a[1].strip()))
                 return r
+            # plain `let name = <expression>;` bindings of the body (other than `len` / `ptr`) are substituted into the condition and the slices
+            lets = {}
+            for lm in re.finditer(r'\blet\s+(?:mut\s+)?(\w+)\s*=\s*([^;{}]+);', bodyc):
+                if lm.group(1) not in ('len', 'ptr'): lets[lm.group(1)] = lm.group(2).strip()
+            def subst(x):
+                for _ in range(3):
+                    for nm, ex in lets.items(): x = re.sub(r'\b' + nm + r'\b', '(' + ex + ')', x)
+                return x
+            cond = subst(cond)
             ts, es = slices(then_b), slices(else_b)
+            ts = [(subst(a), subst(b)) for a, b in ts]; es = [(subst(a), subst(b)) for a, b in es]
             if len(ts) == 2 and len(es) == 1: wrap, nowrap, neg = ts, es, False
             elif len(ts) == 1 and len(es) == 2: wrap, nowrap, neg = es, ts, True
             else: raise SyntaxError(f'{m.group(1)}: expected a 2-slice and a 1-slice branch, found {len(ts)} / {len(es)}')
@@ -647,7 +657,8 @@ def extract_kernels():
             chunks.append((m.group(1), cc, hl, tl, nl, [x[0] for x in lens]))
         if len(chunks) != 2: raise SyntaxError(f'expected next_chunk and next_chunk_mut, found {len(chunks)}')
         for nm, cc, hl, tl, nl, ptrs in chunks:
-            ok_ptrs = re.sub(r'\s', '', ptrs[0]) == 'ptr.add(self._index())' and re.sub(r'\s', '', ptrs[1]) == 'ptr' and re.sub(r'\s', '', ptrs[2]) == 'ptr.add(self._index())'
+            norm = lambda x: re.sub(r'\s', '', x).replace('((self._index()))', '(self._index())')
+            ok_ptrs = norm(ptrs[0]) == 'ptr.add(self._index())' and norm(ptrs[1]) == 'ptr' and norm(ptrs[2]) == 'ptr.add(self._index())'
             if not ok_ptrs: problems.append(f'{nm}: unexpected slice base pointers {ptrs}')
             out.append(f'(* iterators/iterator_trait.rs :: {nm}: wrap condition, head / tail lengths when wrapping, head length otherwise *)\n'
                        f'Definition g_{nm}_cond (E : env) (count : nat) : M bool :=\n  let len := e_len E in {cc}.\n'
